@@ -255,7 +255,8 @@ def decision_cases(rng, n):
         out.append((l, l))
         # GetLockCommandExpriedTime
         now = rng.choice([ct, ct + 1, ct + 59, ct + 60, ct + 61, ct + 3600, ct - 1, ct - 500, ct + rng.randrange(0, 1 << 23)])
-        l = "Decide GetLockCommandExpriedTime %d,%d,%d,%d -" % (flags16(), rng.choice([0, 1, 2, 60, 61, 0xffff, rand_uint(rng, 16)]), ct, now)
+        l = "Decide GetLockCommandExpriedTime %d,%d,%d,%d,%d -" % (flags16(), rng.choice([0, 1, 2, 60, 61, 0xffff, rand_uint(rng, 16)]), ct, now,
+                                                                   rng.choice([0, 0, 1, 5, 60, 65, 0xffff, rand_uint(rng, 16)]))
         out.append((l, l))
         # CompareAofId
         x = rand_bytes(rng, 16)
